@@ -292,6 +292,12 @@ class Gen:
             e = self.ch([self.name(), self.integer(), self.name() + "." + self.name(False), self.name() + "[" + self.integer() + "]",
                          self.name() + "()", self.floatlit() if not self.floatlit().endswith(".") else "1.5"])
             return e
+        if k < 0.43:
+            # a field is parsed as if it stood in parentheses: forms that need them elsewhere are legal bare
+            a, b, c = self.name(), self.name(), self.name()
+            return self.ch([f"{a} for {a} in {b}", f"{a} for {a} in {b} if {c}", f"{a}, {b}", f"{a},", f"*{a}, {b}", "yield", f"yield {a}",
+                            f"yield from {a}", f"await {a}", f"{a} if {b} else {c}", f"not {a}", f"{a} or {b}", f"{a} async for {a} in {b}",
+                            f"{a}.{b} for {a} in {b} for {c} in {a}"])
         if k < 0.5:
             return self.expr(d, 6)
         if k < 0.6:
